@@ -322,10 +322,22 @@ def lower (m : LModel) : LModel :=
     | .lin cs xs op k => acc.materializeLin cs xs op k) { m with pending := [] }
   m'
 
+/-- the divisor variable of a `Div` / `Modulo` propagator -/
+def divisorOf : LP → Option Nat
+  | .divVV _ y _ => some y
+  | .modVV _ y _ => some y
+  | _ => none
+
 /-- `ModelValidator::validate`, the part that applies to integer fluent models: an empty
-variable domain is reported as `InvalidDomain` -/
+variable domain is reported as `InvalidDomain` (`validate_variable_domains`), a `Div` / `Modulo`
+propagator whose divisor variable can be zero as `InvalidConstraint`
+(`validate_constraint_parameters`) -/
 def validateErr (m : LModel) : Option String :=
-  if m.doms.any (·.isEmpty) then some "InvalidDomain" else none
+  if m.doms.any (·.isEmpty) then some "InvalidDomain"
+  else if m.props.any (fun p => match divisorOf p with
+      | some y => (m.doms.getD y []).contains 0
+      | none => false) then some "InvalidConstraint"
+  else none
 
 end LModel
 
